@@ -376,7 +376,7 @@ func parseBTreePageSpecial(info *IndexPageInfo, special []byte) {
 
 // parseHashPageSpecial parses Hash index special section
 func parseHashPageSpecial(info *IndexPageInfo, special []byte) {
-	if len(special) < 12 {
+	if len(special) < 16 { // sizeof(HashPageOpaqueData); flags are read at 12..14
 		return
 	}
 	
@@ -516,7 +516,7 @@ func parseBTreeMeta(page []byte) *BTreeMetaPage {
 	
 	// Check if this is a meta page via special section
 	special := binary.LittleEndian.Uint16(page[16:18])
-	if int(special) >= PageSize {
+	if int(special) > PageSize-16 { // no room for the 16-byte opaque data
 		return nil
 	}
 	
@@ -550,7 +550,7 @@ func parseHashMeta(page []byte) *HashMetaPage {
 	}
 	
 	special := binary.LittleEndian.Uint16(page[16:18])
-	if int(special) >= PageSize {
+	if int(special) > PageSize-16 { // no room for the 16-byte opaque data
 		return nil
 	}
 	
